@@ -130,8 +130,13 @@ WideForests == { << [ty |-> "A", kids |-> [i \in 1..n |-> LeafT(IF i % 2 = 0 THE
 \* depth the children of sibling 1 are directly followed by those of sibling 10 (or 11), whose index begins with "1"
 SparseForests == { [i \in 1..12 |-> IF i = 2 THEN [ty |-> "A", kids |-> <<LeafT("B")>>]
                                     ELSE IF i = k THEN [ty |-> "B", kids |-> <<LeafT("A"), LeafT("B")>>] ELSE LeafT("A")] : k \in {11, 12} }
-WideRebuildFlatten == \A f \in WideForests \cup SparseForests : Rebuild(Flatten(f)) = f
-EmitWide == \A f \in WideForests \cup SparseForests : PrintT("FOREST " \o ToJson([forest |-> f, flat |-> Flatten(f)]))
+\* ... and two forests that flatten to one sequence of types although their trees differ (a member more in the inner
+\* group against a sibling more outside): only the index paths tell them apart
+ColliderForests == { << [ty |-> "A", kids |-> <<LeafT("A"), LeafT("B")>>], LeafT("A") >>,
+                     << [ty |-> "A", kids |-> <<LeafT("A"), LeafT("B"), LeafT("A")>>] >> }
+CollidersCollide == \A f, g \in ColliderForests : [i \in DOMAIN Flatten(f) |-> Flatten(f)[i].ty] = [i \in DOMAIN Flatten(g) |-> Flatten(g)[i].ty]
+WideRebuildFlatten == CollidersCollide /\ \A f \in WideForests \cup SparseForests \cup ColliderForests : Rebuild(Flatten(f)) = f
+EmitWide == \A f \in WideForests \cup SparseForests \cup ColliderForests : PrintT("FOREST " \o ToJson([forest |-> f, flat |-> Flatten(f)]))
 
 \* ---- what a module is made of.  A class, a function and a type variable are exported as rows of class Symbol, a
 \* variable and an imported name as rows of class Reflection; a module may consist of any non-empty choice of them (a
@@ -153,5 +158,9 @@ RECURSIVE NodesOf(_), NodesOfForest(_)
 NodesOfForest(f) == IF f = <<>> THEN 0 ELSE NodesOf(Head(f)) + NodesOfForest(Tail(f))
 NodesOf(t) == 1 + NodesOfForest(t.kids)
 \* the shapes replayed on the real serializer: every forest with at most 5 nodes
+\* the sequence of types of a flattened forest does not determine the forest (the index paths do): two rows of one table
+\* may agree on it and still have different attribute trees - the replay puts such rows into one module
+TypesOf(es) == [i \in DOMAIN es |-> es[i].ty]
+TypesDoNotDetermineShape == \E f, g \in {h \in Forests : h # <<>> /\ NodesOfForest(h) <= 4} : f # g /\ TypesOf(Flatten(f)) = TypesOf(Flatten(g))
 Emit == \A f \in {g \in Forests : g # <<>> /\ NodesOfForest(g) <= 5} : PrintT("FOREST " \o ToJson([forest |-> f, flat |-> Flatten(f)]))
 =============================================================================
